@@ -346,6 +346,20 @@ def _mk_alphabet():
         j = c.rnd.randint(1, A.shape[1])
         return lambda: A[0:i, 0:j]
 
+    @op("getitem_idx")      # integer index ARRAYS (negative entries included) are caller-owned too
+    def _(c):
+        A, _ = c.pick()
+        m, n = A.shape
+
+        def idx(size):
+            cnt = c.rnd.randint(1, size)
+            return c.track(np.array([c.rnd.randint(-size, size - 1) for _ in range(cnt)], dtype=np.int64), "index array")
+        rows = idx(m)
+        cols = idx(n) if c.rnd.random() < 0.5 else None
+        if cols is None:
+            return lambda: A[rows]
+        return lambda: A[rows, cols]
+
     @op("getelem")
     def _(c):
         A, _ = c.pick(square)
